@@ -131,6 +131,21 @@ func runOne(t *testing.T, scn *Scenario, tier string, seed uint64, plan *Plan, k
 		}
 		ctx.Sim = sim
 		defer func() {
+			// a panic on the driver goroutine (library code called directly, or a
+			// harness bug) must not kill the worker: classify it by its stack
+			if r := recover(); r != nil {
+				msg := fmt.Sprint(r)
+				st := string(debug.Stack())
+				if panicInRepo(st) {
+					ctx.Violate("panic", "", "", "panic: %s\n%s", msg, trimStack(st))
+				} else {
+					res.HarnessErr = "panic: " + msg + "\n" + trimStack(st)
+					res.OK = false
+				}
+				sim.Stop()
+			}
+		}()
+		defer func() {
 			res.Steps = sim.Steps
 			res.SimNs = int64(sim.Now())
 			res.Hash = sim.TraceHash()
